@@ -121,6 +121,21 @@ func runHistory(cv cvar, op string) {
 		r := cv.codec.NewReader(bytes.NewReader(bad))
 		readChunks(r, 64, 0)
 		r.Close()
+	case "other":
+		if cv.ref != refwire.Snappy {
+			return
+		}
+		other := &snappy.Codec{Framing: snappy.Unframed}
+		if cv.unframed {
+			other = &snappy.Codec{}
+		}
+		var buf bytes.Buffer
+		w := other.NewWriter(&buf)
+		w.Write(hist)
+		w.Close()
+		r := other.NewReader(&buf)
+		io.Copy(io.Discard, r)
+		r.Close()
 	case "half":
 		var buf bytes.Buffer
 		w := cv.codec.NewWriter(&buf)
@@ -148,6 +163,14 @@ func roundTrip(cv cvar, data []byte, wchunk, rbuf int) *seqx.Viol {
 		return &seqx.Viol{Sig: cv.name + ":close-error", Msg: err.Error()}
 	}
 	enc := append([]byte{}, buf.Bytes()...)
+	// 0. snappy: the stream has the framing the codec value was configured with (xerial blocks behind the
+	// magic header, or one raw snappy block)
+	if cv.ref == refwire.Snappy && len(data) > 0 {
+		framed := len(enc) >= 8 && bytes.Equal(enc[:8], []byte{0x82, 'S', 'N', 'A', 'P', 'P', 'Y', 0})
+		if framed == cv.unframed {
+			return &seqx.Viol{Sig: cv.name + ":wrong-framing", Msg: fmt.Sprintf("the %s writer produced a stream that is framed=%v (starts %q)", cv.name, framed, head(enc))}
+		}
+	}
 	// 1. the format's reference decoder reads our output
 	dec, err := refwire.Decompress(cv.ref, enc)
 	if err != nil || !bytes.Equal(dec, data) {
@@ -205,7 +228,9 @@ func TestCheck(t *testing.T) {
 	sizes := []int{1, 2, 100, 32767, 32768, 32769, 65535, 65536, 65537, 100000}
 	patterns := []string{"zeros", "text", "random"}
 	histories := [][]string{{}}
-	hops := []string{"clean", "error", "half"}
+	// "other": the pooled objects were last used by another codec value that shares the pools (snappy with the
+	// other framing; a no-op for the other codecs)
+	hops := []string{"clean", "error", "half", "other"}
 	for _, a := range hops {
 		histories = append(histories, []string{a})
 		for _, b := range hops {
